@@ -102,6 +102,19 @@ add("C16", "CH",
     "inputs only select the structure: path exploration with exhaustion proved by CrossHair/z3 (weakest solver use, "
     "stated). Rendering/importing the pruned library is outside the claim.")
 
+add("C20", "BSTR",
+    "own bounded symbolic string executor (z3 integer characters, CPython backtracking order) running the real "
+    "fix_whitespace, rst and wrap; validity queries at every leaf",
+    "Formatter: for ALL strings of two bounded families fix_whitespace is idempotent, ends with exactly one newline and "
+    "changes only trailing blanks / blank lines (normal-form equality, the surrogate for 'AST unchanged'). Docstring "
+    "guard: for ALL texts within the bound the real rst()+wrap() output cannot terminate a triple-quoted literal early "
+    "(Python tokenizer rule encoded in z3).",
+    "DESIGN.md section 5 C20",
+    "Family U: all strings <= 6 (quick) / 8 chars over an 8-character alphabet; family S: structured strings up to ~20 "
+    "chars; rst texts <= 6 / 8 chars. textwrap is replaced by a short-text model validated on each run; wrap()'s re-flow "
+    "clauses (words kept, width respected), the pandoc branch and Metadata.doc are outside the claim. Trusted: z3, sre "
+    "parser, the BSTR engine (validated against the real functions on concrete strings every run).")
+
 PENDING = {}
 
 
